@@ -122,7 +122,7 @@ func (env *Env) val(v *SVal) *SVal {
 		// Go-level type invariant of the loaded value (0 <= len <= cap < 2^40, allocated, typed): always true of a
 		// well-typed heap, so it may be assumed wherever a contract reads memory
 		if !env.inQuant {
-			if wf := env.e.wellFormedAt(t, v.Loc.Typ, env.st, locHeap(v.Loc)); !wf.IsTrue() {
+			if wf := env.e.wellFormedAt(t, v.Loc.Typ, env.st, locHeap(v.Loc), env.e.ptrObj(v.Loc.Base)); !wf.IsTrue() {
 				env.e.assume(env.st, wf)
 			}
 		}
